@@ -71,7 +71,7 @@ struct Counters {
 
 fn counters() -> Counters {
     Counters {
-        ops: shim_atomic::OPS.load(Relaxed),
+        ops: shim_atomic::OPS.load(Relaxed) + shim_loom::LOCKS.load(Relaxed),
         batches: shim_rayon::PAR_BATCHES.load(Relaxed),
         tasks: shim_rayon::PAR_TASKS.load(Relaxed),
         oversize: shim_rayon::OVERSIZE_BATCHES.load(Relaxed),
@@ -109,9 +109,9 @@ fn run_case(case: &Value) -> Value {
             for body in &bodies {
                 shim_rayon::MAX_SPLIT.store(0, Relaxed);
                 let batches = shim_rayon::SPLIT_BATCHES.load(Relaxed);
-                let ops = shim_atomic::OPS.load(Relaxed);
+                let ops = shim_atomic::OPS.load(Relaxed) + shim_loom::LOCKS.load(Relaxed);
                 body();
-                rec.lock().unwrap().push((shim_rayon::MAX_SPLIT.load(Relaxed), shim_rayon::SPLIT_BATCHES.load(Relaxed) - batches, shim_atomic::OPS.load(Relaxed) - ops));
+                rec.lock().unwrap().push((shim_rayon::MAX_SPLIT.load(Relaxed), shim_rayon::SPLIT_BATCHES.load(Relaxed) - batches, shim_atomic::OPS.load(Relaxed) + shim_loom::LOCKS.load(Relaxed) - ops));
             }
         });
         let splits = splits.lock().unwrap();
